@@ -279,6 +279,8 @@ def ess_case(case):
 # ------------------------------------------------------------------ generators
 def pick_list(rng, universe):
     r = rng.random()
+    if r < 0.05:
+        return []                        # an empty request: no rows
     if r < 0.3 or not universe:
         return None
     k = rng.randrange(1, len(universe) + 1)
@@ -303,7 +305,7 @@ def gen_del(rng, n):
              "l1": pick_list(rng, universe), "l2": None}
         if c["double"]:
             c["l2"] = pick_list(rng, universe)
-            if c["l1"] is not None and c["l2"] is not None and rng.random() < 0.5:
+            if c["l1"] and c["l2"] is not None and rng.random() < 0.5:
                 c["l2"] = list(dict.fromkeys(c["l2"] + rng.sample(c["l1"], 1)))      # overlap between the two lists
         cases.append(c)
     return cases
